@@ -24,6 +24,10 @@ type Solver struct {
 	Time    time.Duration
 	dead    bool
 	poolKey string
+	// timeoutMs is the per-query soft timeout the process was started with; Retried counts the
+	// queries that came back unknown within it and were asked again with six times as long
+	timeoutMs int
+	Retried   int
 }
 
 // NewSolver starts a solver. kind is "z3", "z3-new" or "cvc5".
@@ -51,7 +55,7 @@ func NewSolver(kind string, timeoutMs int) (*Solver, error) {
 	if err := cmd.Start(); err != nil {
 		return nil, err
 	}
-	s := &Solver{Name: kind, cmd: cmd, in: in, out: bufio.NewReaderSize(out, 1<<16)}
+	s := &Solver{Name: kind, cmd: cmd, in: in, out: bufio.NewReaderSize(out, 1<<16), timeoutMs: timeoutMs}
 	if kind == "cvc5" {
 		s.Send("(set-logic ALL)")
 	} else {
@@ -127,6 +131,26 @@ func (s *Solver) CheckSat() string {
 	if bad {
 		s.Errors++
 		res = "unknown"
+	}
+	if res == "unknown" && !bad && !s.dead && s.Name != "cvc5" && s.timeoutMs > 0 {
+		// a time-out, not an error: on a loaded machine a query that normally takes a few seconds
+		// can miss the soft timeout; ask once more with six times as long (the assertion stack
+		// is untouched) before the caller has to treat the branch as undecided
+		s.Retried++
+		s.Send(fmt.Sprintf("(set-option :timeout %d)", 6*s.timeoutMs))
+		for _, l := range s.roundTrip("(check-sat)") {
+			switch {
+			case l == "sat" || l == "unsat":
+				res = l
+			case strings.HasPrefix(l, "(error"):
+				bad = true
+			}
+		}
+		s.Send(fmt.Sprintf("(set-option :timeout %d)", s.timeoutMs))
+		if bad {
+			s.Errors++
+			res = "unknown"
+		}
 	}
 	switch res {
 	case "sat":
